@@ -65,6 +65,10 @@ func (e *Engine) runPath(s *State, work *[]*State, probe *probeRec) {
 		}
 		in := f.blk.Instrs[f.ip]
 		s.steps++
+		e.tick++
+		if e.tick&127 == 0 && !e.deadline.IsZero() && time.Now().After(e.deadline) {
+			panic(execError{fmt.Sprintf("generation budget of %d s exceeded in %s (the paths of this function are no longer enumerated in reasonable time)", e.genBudget, f.fn.Name())})
+		}
 		if s.steps > e.maxSteps {
 			panic(execError{fmt.Sprintf("step budget exceeded in %s (loop without invariant?)", f.fn.Name())})
 		}
@@ -139,11 +143,11 @@ func (e *Engine) enterBlock(s *State, f *Frame, probe *probeRec) bool {
 		phi := b.Instrs[i].(*ssa.Phi)
 		f.env[phi] = vals[i]
 		if phi.Comment != "" {
-			f.names[phi.Comment] = nameRef{v: vals[i]}
+			e.bindName(f, nil, phi.Comment, nameRef{v: vals[i]})
 			if ord, isH := li.ordinal[b]; isH {
 				// loop-carried variables are also addressable as <name><loop ordinal> (nested range loops
 				// all call their index `rangeindex`)
-				f.names[fmt.Sprintf("%s%d", phi.Comment, ord)] = nameRef{v: vals[i]}
+				e.bindNameSuffix(f, phi.Comment, fmt.Sprint(ord), nameRef{v: vals[i]})
 			}
 		}
 	}
@@ -299,9 +303,9 @@ func (e *Engine) havocLoop(s *State, f *Frame, b *ssa.BasicBlock, nphi int, writ
 		v := a.abstractValue(phi.Type(), uniqueName("loop."+nm), nil)
 		f.env[phi] = v
 		if phi.Comment != "" {
-			f.names[phi.Comment] = nameRef{v: v}
+			e.bindName(f, nil, phi.Comment, nameRef{v: v})
 			if ord, isH := f.loops.ordinal[b]; isH {
-				f.names[fmt.Sprintf("%s%d", phi.Comment, ord)] = nameRef{v: v}
+				e.bindNameSuffix(f, phi.Comment, fmt.Sprint(ord), nameRef{v: v})
 			}
 		}
 	}
@@ -382,12 +386,12 @@ func (e *Engine) step(s *State, f *Frame, in ssa.Instruction, work *[]*State, pr
 			}
 			if _, isVar := x.Object().(*types.Var); isVar {
 				if v, ok := f.env[x.X]; ok {
-					f.names[x.Object().Name()] = nameRef{v: v, isAddr: x.IsAddr}
+					e.bindName(f, x.Object(), x.Object().Name(), nameRef{v: v, isAddr: x.IsAddr})
 				} else if c, ok := x.X.(*ssa.Const); ok {
-					f.names[x.Object().Name()] = nameRef{v: e.constValue(c)}
+					e.bindName(f, x.Object(), x.Object().Name(), nameRef{v: e.constValue(c)})
 				} else if p, ok := x.X.(*ssa.Parameter); ok {
 					if v, ok := f.env[p]; ok {
-						f.names[x.Object().Name()] = nameRef{v: v}
+						e.bindName(f, x.Object(), x.Object().Name(), nameRef{v: v})
 					}
 				}
 			}
@@ -400,7 +404,7 @@ func (e *Engine) step(s *State, f *Frame, in ssa.Instruction, work *[]*State, pr
 		}
 		f.env[x] = VPtr{Obj: obj}
 		if x.Comment != "" && x.Comment != "complit" && x.Comment != "varargs" && !strings.HasPrefix(x.Comment, "new") && !strings.Contains(x.Comment, ".") {
-			f.names[x.Comment] = nameRef{v: VPtr{Obj: obj}, isAddr: true}
+			e.bindName(f, nil, x.Comment, nameRef{v: VPtr{Obj: obj}, isAddr: true})
 		}
 	case *ssa.Store:
 		p := e.val(s, f, x.Addr).(VPtr)
